@@ -1,6 +1,7 @@
 """C15 - isochronous IN endpoints send exactly the requested bytes per frame.
 
-DUT: one or two real `USBIsochronousStreamInEndpoint`s (random endpoint numbers, max packet size 1..64) inside a
+DUT: one or two real `USBIsochronousStreamInEndpoint`s (random endpoint numbers, max packet size 1..64; 15 % of the cases one
+endpoint with max packet size 200/256/512/1023/1024, 4-6 frames of up to 3 x mps = 3072 bytes, directed at 2^n-1/2^n/2^n+1) inside a
 real `USBDevice(bus=UTMIInterface())` (12 MHz timing tables; 20 % of the cases with the 60 MHz tables); packets leave through luna's endpoint multiplexer and data packet generator and
 are captured (and CRC-checked by the reference codec) at the UTMI transmit side.
 
@@ -39,7 +40,7 @@ from rv.usb2host import UTMIHost, init_device_signals
 from rv.ref import usb2 as U
 
 PROPERTY = "C15"
-CASES = {"quick": 384, "thorough": 6000}
+CASES = {"quick": 352, "thorough": 6000}
 RULE = ("case = device with 1-2 iso IN endpoints (mps 1..64), 8-20 frames; per frame directed/random bytes_in_frame (0..3*mps), "
         "decoy overwrite after the SOF, 0-5 IN tokens (needed / fewer / surplus) interleaved with foreign tokens; stream valid "
         "profile and tx_ready profile per case; non-trivial = >=1 three-packet frame, >=1 surplus ZLP, >=1 zero-filled byte; "
@@ -49,14 +50,16 @@ REQUIRED_BINS = ["frame_bytes_0", "frame_bytes_1", "frame_1_packet_full", "frame
                  "zlp_empty_frame", "surplus_zlp", "fewer_tokens_than_needed", "frame_restart_with_leftover",
                  "decoy_after_sof", "damaged_sof_frame_continues", "zero_fill_byte", "stream_byte", "mixed_fill_packet",
                  "foreign_token_between", "other_dut_between", "tx_stalled_packet", "two_endpoints", "short_last_packet",
-                 "timing_fs12", "timing_fs60"]
+                 "timing_fs12", "timing_fs60", "mps_ge_200", "mps_ge_512", "frame_bytes_ge_256", "frame_bytes_ge_1024",
+                 "frame_bytes_ge_2048", "frame_bytes_3072"]
 REQUIRED_EVENTS = ["in_tokens_to_dut", "data_packets_checked", "payload_bytes_checked", "ready_cycles_seen", "stream_transfers_seen", "frames_started"]
 ASSUMPTIONS = ["a frame starts at every well-formed SOF (the endpoint uses the token detector's new_frame, also for repeated frame numbers)",
-               "bytes_in_frame is stable from >= 3 cycles before the SOF until >= 8 cycles after it; later changes must be ignored",
+               "bytes_in_frame is stable from >= 2 cycles before the SOF until >= 6 cycles after its end; later changes must be ignored (the statement does not fix the latch instant more precisely)",
                "the PID of surplus zero-length packets is not judged",
                "the device answers within the host model's response window (40 cycles + transmission time)"]
 
 MPS_CHOICES = [1, 2, 3, 8, 8, 13, 16, 16, 32, 64]
+LARGE_MPS_CHOICES = [1024, 1024, 1024, 1024, 1023, 512, 512, 256, 200]
 PIDS = [U.DATA0, U.DATA1, U.DATA2]
 
 
@@ -87,10 +90,11 @@ def build(rng):
         dev.always_fs = False
         dev.data_clock = 60e6
         timing = "fs60"
-    n_eps = 2 if rng.random() < 0.4 else 1
+    large = rng.random() < 0.15      # high-bandwidth sized endpoint: frames up to 3 x 1024 = 3072 bytes (12-bit counters)
+    n_eps = 1 if large else 2 if rng.random() < 0.4 else 1
     eps = []
     for num in rng.sample(range(1, 16), n_eps):
-        mps = rng.choice(MPS_CHOICES)
+        mps = rng.choice(LARGE_MPS_CHOICES if large else MPS_CHOICES)
         dut = USBIsochronousStreamInEndpoint(endpoint_number=num, max_packet_size=mps)
         dev.add_endpoint(dut)
         eps.append(Ep(dut, num, mps))
@@ -102,6 +106,12 @@ def run_case(rng, tier, res):
     b = Bench(dev, domain="usb", freq=60e6, max_cycles=120000)
     gap_profile = rng.choice(["none", "none", "random", "fixed4", "onestall"])
     ready_profile = rng.choice(["always", "always", ("every", 2), ("every", 3), ("random", 0.5), ("random", 0.8), ("bursty", 12, 6), ("bursty", 3, 20)])
+    large = eps[0].mps >= 200
+    if large:
+        ready_profile = rng.choice(["always", "always", ("random", 0.8), ("bursty", 3, 20)])    # keep the long packets affordable
+        res.bin("mps_ge_200")
+        if eps[0].mps >= 512:
+            res.bin("mps_ge_512")
     host = UTMIHost(b, utmi, rng, timing=timing, ready_profile=ready_profile, gap_profile=gap_profile)
     for ep in eps:
         s = ep.dut.stream
@@ -296,7 +306,13 @@ def run_case(rng, tier, res):
     def choose_bytes(ep, first):
         m = ep.mps
         directed = [0, 1, m - 1, m, m + 1, 2 * m - 1, 2 * m, 2 * m + 1, 3 * m - 1, 3 * m]
+        if m >= 200:
+            # counter-width boundaries of the 12-bit frame counters
+            directed += [v for v in (255, 256, 257, 511, 512, 513, 1023, 1024, 1025, 2047, 2048, 2049, 3071, 3072) if v <= 3 * m]
+            directed += [3 * m, 3 * m, 2 * m + 1]
         r = rng.random()
+        if m >= 200 and r < 0.3:
+            return rng.choice([3 * m, 3 * m, 3 * m, 3 * m - 1, 2 * m + 1])
         if first and r < 0.6:
             v = rng.choice([m, 2 * m, 3 * m, 3 * m - 1, m + 1])      # the very first frame after reset deserves full packets
         elif r < 0.7:
@@ -314,6 +330,8 @@ def run_case(rng, tier, res):
         yield from host.idle(5)
         frame_no = rng.choice([1, 5, 2046, rng.randrange(1, 2048)])
         n_frames = rng.randint(8, 20) if tier == "quick" else rng.randint(8, 30)
+        if large:
+            n_frames = rng.randint(4, 6) if tier == "quick" else rng.randint(4, 8)
         for fi in range(n_frames):
             script = {}
             # ---- per-frame configuration, set before the SOF
@@ -325,7 +343,7 @@ def run_case(rng, tier, res):
                     mode = rng.choice(["always", "always", "never", "random", "random", "bursty"])
                     ep.prod["mode"] = mode
                     ep.prod["p"] = rng.choice([0.1, 0.3, 0.6, 0.9])
-            yield from host.idle(rng.randint(3, 10))
+            yield from host.idle(rng.randint(2, 10))
             # ---- SOF
             damaged = fi > 0 and rng.random() < 0.1
             if rng.random() < 0.75:
@@ -348,8 +366,13 @@ def run_case(rng, tier, res):
                         res.bin("exact_multiple_3")
                     if nb in (m + 1, 2 * m + 1):
                         res.bin("one_over_multiple")
+                    for lim in (256, 1024, 2048):
+                        if nb >= lim:
+                            res.bin("frame_bytes_ge_%d" % lim)
+                    if nb == 3072:
+                        res.bin("frame_bytes_3072")
             script["sof"] = (frame_no, "damaged" if damaged else "good", dict(want))
-            yield from host.idle(rng.randint(8, 14))
+            yield from host.idle(rng.randint(5, 14))
             # ---- decoy: the value must have been latched at the SOF
             if rng.random() < 0.7:
                 for ep in eps:
